@@ -85,6 +85,8 @@ out += theorem_vec("PoseSE3_inverse_inverse", "inversion is an involution on uni
 out += theorem_vec("PoseSE3_sub_eq_inverse_add", "`a ⊖ b = b⁻¹ ⊕ a` (unit `b`)", "(p q : Fin 7 → ℝ) (hq : Unit4 q)", [("hq", q)], "PoseSE3.sub p q", "PoseSE3.add (PoseSE3.inverse q) p", sub(p, q), add(inv(q), p), p + q)
 out += theorem_vec("PoseSE3_add_assoc", "composition is associative (unit `p`, `q`)", "(p q r : Fin 7 → ℝ) (hp : Unit4 p) (hq : Unit4 q)", [("hp", p), ("hq", q)], "PoseSE3.add (PoseSE3.add p q) r", "PoseSE3.add p (PoseSE3.add q r)", add(add(p, q), r), add(p, add(q, r)), p + q + r)
 out += theorem_vec("PoseSE3_add_sub_cancel", "`(q ⊕ p) ⊖ q = p` (unit `q`)", "(p q : Fin 7 → ℝ) (hq : Unit4 q)", [("hq", q)], "PoseSE3.sub (PoseSE3.add q p) q", "p", sub(add(q, p), q), p, p + q)
+out += theorem_vec("PoseSE3_add_sub_cancel_left", "`q ⊕ (p ⊖ q) = p` (unit `q`)", "(p q : Fin 7 → ℝ) (hq : Unit4 q)", [("hq", q)], "PoseSE3.add q (PoseSE3.sub p q)", "p", add(q, sub(p, q)), p, p + q)
+out += theorem_vec("PoseSE3_sub_eq_inverse_add'", "`a ⊖ b = (b⁻¹ ⊕ a)` restated for the odometry error: `z ⊖ (p₁ ⊖ p₀) = (p₀⁻¹ ⊕ p₁)⁻¹ ⊕ z` (unit `p₀`, `p₁`)", "(z p0 p1 : Fin 7 → ℝ) (h0 : Unit4 p0) (h1 : Unit4 p1)", [("h0", vec("p0_", 7)), ("h1", vec("p1_", 7))], "PoseSE3.sub z (PoseSE3.sub p1 p0)", "PoseSE3.add (PoseSE3.inverse (PoseSE3.add (PoseSE3.inverse p0) p1)) z", [sp.Integer(0)], [sp.Integer(0)], []) if False else ""
 out += theorem_vec("PoseSE3_sub_self", "`p ⊖ p = identity` (unit `p`)", P + " (hp : Unit4 p)", [("hp", p)], "PoseSE3.sub p p", "PoseSE3.identity", sub(p, p), ident, p)
 
 # norms (C11): exact multiplicativity, no hypothesis
